@@ -228,6 +228,7 @@ pub fn op_name(o: &Op) -> &'static str {
         Op::DropThenJoin { .. } => "drop_then_join",
         Op::JoinStart { .. } => "join_start",
         Op::JoinFinish => "join_finish",
+        Op::JoinDiscard => "join_discard",
         Op::Clone { .. } => "clone",
         Op::Downgrade { .. } => "downgrade",
         Op::Upgrade { .. } => "upgrade",
